@@ -27,6 +27,19 @@ def judge (op : List String) (go : String) : Verdict :=
       else if go == "panic" || go == "hang" then .violation "go-panic-or-hang" "no crash" tags
       else .violation "smallint-cache-value" s!"cached value = pure initialiser of the key, same on every read: {want}" tags
     | _, _ => .skip "bad-smallint-op"
+  | ["sharedprog", engine, _kind, _signers, src] =>
+    let has (w : String) : Bool := (src.splitOn w).length > 1
+    let tags := [engine, "host-program-cache"] ++ (if has "import " then ["shared-contracts"] else [])
+    if go.startsWith "same ;; " then .ok (if has "import " then "!nt" :: tags else tags)
+    else if go.startsWith "meterdiff " then
+      if engine == "vm" && (go.splitOn "only=comp(GraphemesIteration) ").length > 1 then
+        .violation "vm-shared-string-constant-length-memo"
+          "the same metering call sequence on the first and on a later execution sharing the host's program cache (here: the grapheme-length memo of a string constant of the shared compiled program is filled, and metered, by the first user only)" tags
+      else .violation "metering-depends-on-history" "the same metering call sequence on the first and on a later execution sharing the host's program cache" tags
+    else if go.startsWith "diff:outcome" then
+      .violation "outcome-depends-on-history" "the same outcome on the first and on a later execution" tags
+    else if go == "panic" || go == "hang" then .violation "go-panic-or-hang" "no crash" tags
+    else .modelDiff ("unexpected observation: " ++ (go.take 80).toString) tags
   | "meterhist" :: engine :: _kind :: _signers :: src :: hist =>
     match go.splitOn " ;; " with
     | verdict :: n :: _totals :: outcome :: counts :: _ =>
